@@ -17,6 +17,7 @@ import (
 	"errors"
 	"fmt"
 	"strings"
+	"unicode/utf8"
 
 	"github.com/libsv/go-bk/bec"
 )
@@ -91,6 +92,12 @@ func NewJSONEnvelope(payload interface{}) (*JSONEnvelope, error) {
 	pl, err := json.Marshal(payload)
 	if err != nil {
 		return nil, fmt.Errorf("failed to encode payload %w", err)
+	}
+	// The envelope is itself carried as JSON, and encoding/json replaces every byte that is not
+	// valid UTF-8 by U+FFFD when it serialises the payload string (a json.RawMessage or a custom
+	// Marshaler can contain such bytes): sign the payload as the receiver will see it.
+	if !utf8.Valid(pl) {
+		pl = []byte(string([]rune(string(pl))))
 	}
 	// IsValid hashes application/json payloads with the backslashes removed, so
 	// the same canonical form has to be signed here.
